@@ -451,6 +451,17 @@ P_C07 == \A c \in Cmds : LET d == Dispatch(st, c) IN
            /\ d.res = "err" => d.st = st
            /\ d.res = "ok" => FrameOK(st, d.st, c)
 
+\* Worker level (lib/src/server.rs::notify_proxys). A worker keeps a ConfigState of its own: it applies the
+\* command to it, then hands the command to its proxies, and the proxies' verdict `pa` (an input here: they
+\* have reasons of their own, e.g. no listener on the address, an unusable key) is the answer sent back.
+\* The property wants a Failure answer to leave the worker's configuration as it was.  The code keeps the
+\* change (deviation WorkerKeepsRefused, an open finding).
+WorkerHandle(s, c, pa) ==
+  [res |-> pa,
+   st |-> IF pa = "err" /\ "WorkerKeepsRefused" \notin Deviations THEN s ELSE Dispatch(s, c).st]
+P_C07_Worker == \A c \in Cmds : \A pa \in {"ok", "err"} :
+                  LET h == WorkerHandle(st, c, pa) IN h.res = "err" => h.st = st
+
 ---------------------------------------------------------------------------
 (* Behaviours *)
 
